@@ -183,6 +183,9 @@ var runConnNoSniff bool
 // runConnPreBuf / runConnWarmupMax: see runConn (set by C20 for some configurations)
 var runConnPreBuf, runConnWarmupMax int
 
+// runConnRetryFirst: the reader is served to the connection's first reconnection instead of its first attempt
+var runConnRetryFirst bool
+
 // runConn drives a Connection (single attempt, no retries) over the reader.
 func runConn(rd io.Reader, buf []byte, maxSize int) (obs readObs) {
 	defer func() {
@@ -192,6 +195,7 @@ func runConn(rd io.Reader, buf []byte, maxSize int) (obs readObs) {
 		}
 	}()
 	rt := &scriptedRT{bodies: func(int, *http.Request) (io.Reader, error) { return rd, nil }}
+	var retryErrs []error
 	// every other finite body is announced with its exact Content-Length (a buffered or cached response)
 	runConnCalls++
 	if cr, ok := rd.(*mon.ChunkReader); ok && !cr.Endless && runConnCalls%2 == 1 {
@@ -200,6 +204,13 @@ func runConn(rd io.Reader, buf []byte, maxSize int) (obs readObs) {
 	cl := &sse.Client{
 		HTTPClient: &http.Client{Transport: rt},
 		Backoff:    sse.Backoff{MaxRetries: -1},
+	}
+	if runConnRetryFirst {
+		// the stream under test is what the connection gets on its first reconnection (retries after 1 ns; a
+		// connection that worked restarts the retry count, so the run is ended by a third request that fails in
+		// the transport, and the outcome of the stream is the error OnRetry reports after the second attempt)
+		cl.Backoff = sse.Backoff{MaxRetries: 1, InitialInterval: 1, Multiplier: 1, Jitter: -1}
+		cl.OnRetry = func(err error, _ time.Duration) { retryErrs = append(retryErrs, err) }
 	}
 	if runConnCalls%3 == 2 && !runConnNoSniff {
 		// a validator that sniffs the beginning of the stream and puts it back (the usual
@@ -247,6 +258,23 @@ func runConn(rd io.Reader, buf []byte, maxSize int) (obs readObs) {
 	if buf != nil || maxSize > 0 {
 		conn.Buffer(buf, maxSize)
 	}
+	if runConnRetryFirst {
+		// first attempt: a stream of one comment that ends; the configuration is not touched in between
+		armed = false
+		calls := 0
+		inner := rt.bodies
+		rt.bodies = func(a int, r *http.Request) (io.Reader, error) {
+			calls++
+			switch calls {
+			case 1:
+				return strings.NewReader(": w\n\n"), nil
+			case 2:
+				armed = true
+				return inner(a, r)
+			}
+			return nil, errors.New("the harness ends the run: no third connection")
+		}
+	}
 	returned := false
 	var raw []obsEvent
 	conn.SubscribeToAll(func(e sse.Event) {
@@ -261,6 +289,9 @@ func runConn(rd io.Reader, buf []byte, maxSize int) (obs readObs) {
 	})
 	err := conn.Connect()
 	returned = true
+	if runConnRetryFirst && len(retryErrs) >= 2 {
+		err = retryErrs[1]
+	}
 	for i := range raw {
 		if raw[i] != obs.Events[i] {
 			obs.Proto = append(obs.Proto, fmt.Sprintf("event #%d changed after it was passed to the callback: was %v, is now %v (strings alias a buffer that is reused)", i, obs.Events[i], raw[i]))
@@ -269,6 +300,9 @@ func runConn(rd io.Reader, buf []byte, maxSize int) (obs readObs) {
 	}
 	obs.Err = err
 	obs.Attempts = rt.attempts
+	if runConnRetryFirst {
+		obs.Attempts = min(obs.Attempts, 2) - 1
+	}
 	if err == nil {
 		obs.End = "nil"
 		return obs
